@@ -467,3 +467,57 @@ Section Tree.
           exact Hk.
   Qed.
 End Tree.
+
+(* the expected node depends on R only at the levels of the tree's messages *)
+Section TreeExt.
+  Variable idf : level -> nat.
+  Variable u : nat.
+  Notation ltree := (lin_tree idf u).
+
+  Lemma existsb_ext_in {A} (f g : A -> bool) l : (forall x, In x l -> f x = g x) -> existsb f l = existsb g l.
+  Proof.
+    induction l as [|a r IH]; intros H; cbn; [reflexivity|].
+    rewrite (H a) by now left. rewrite IH; [reflexivity|]. intros; apply H; now right.
+  Qed.
+  Lemma forallb_ext_in {A} (f g : A -> bool) l : (forall x, In x l -> f x = g x) -> forallb f l = forallb g l.
+  Proof.
+    induction l as [|a r IH]; intros H; cbn; [reflexivity|].
+    rewrite (H a) by now left. rewrite IH; [reflexivity|]. intros; apply H; now right.
+  Qed.
+
+  Lemma present_ext_msgs R R' l t :
+    (forall m, In m (ltree l t) -> R (pm_level m) = R' (pm_level m)) ->
+    present idf u R l t = present idf u R' l t.
+  Proof. intros H. unfold present. now apply existsb_ext_in. Qed.
+
+  Lemma full_ext_msgs R R' l t :
+    (forall m, In m (ltree l t) -> R (pm_level m) = R' (pm_level m)) ->
+    full idf u R l t = full idf u R' l t.
+  Proof. intros H. unfold full. now apply forallb_ext_in. Qed.
+
+  Lemma node_of_ext_msgs R R' t : forall l,
+    (forall m, In m (ltree l t) -> R (pm_level m) = R' (pm_level m)) ->
+    node_of idf u R l t = node_of idf u R' l t.
+  Proof.
+    induction t as [ty|ty st ch IHch] using tree_ind'; intros l H; [reflexivity|].
+    rewrite !node_of_act.
+    assert (H1 : R (l ++ [1%positive]) = R' (l ++ [1%positive])).
+    { apply (H (start_msg idf u l ty)). rewrite lin_tree_act. now left. }
+    assert (H2 : R (l ++ [endpos 2 ch]) = R' (l ++ [endpos 2 ch])).
+    { apply (H (end_msg idf u l ty st (endpos 2 ch))). rewrite lin_tree_act. right. apply lin_list_In. now left. }
+    rewrite H1, H2. f_equal.
+    assert (HC : forall p c, child_from 2 ch p = Some c ->
+                 forall m, In m (ltree (l ++ [p]) c) -> R (pm_level m) = R' (pm_level m)).
+    { intros p c Hp m Hm. apply H. rewrite lin_tree_act. right. apply lin_list_In. right. eauto. }
+    clear H H1 H2. revert HC. generalize 2%positive.
+    induction ch as [|c r IHr]; intros pos HC; cbn [children_of]; [reflexivity|].
+    inversion IHch as [|? ? Hc Hr]; subst.
+    assert (Hpos : forall m, In m (ltree (l ++ [pos]) c) -> R (pm_level m) = R' (pm_level m)).
+    { apply (HC pos c). cbn. now rewrite Pos.eqb_refl. }
+    rewrite (present_ext_msgs R R') by exact Hpos. rewrite (Hc (l ++ [pos]) Hpos).
+    rewrite (IHr Hr (Pos.succ pos)); [reflexivity|].
+    intros p c' Hp. apply (HC p c'). cbn [child_from].
+    pose proof (child_from_range _ _ _ _ Hp) as [Hle _].
+    destruct (Pos.eqb_spec p pos); [lia|exact Hp].
+  Qed.
+End TreeExt.
